@@ -242,14 +242,29 @@ def killed(ctx):
         m = m_binop(strip_wrappers(added), "+")
         inc_ok = False
         if m is not None:
-            inc = m_binop(strip_wrappers(m[1]), "-")
+            step_ = strip_wrappers(m[1])
+            inc = m_binop(step_, "-")
             if inc is not None:
                 a, b = inc
                 cn = m_arrcall(strip_wrappers(b), "count_nonzero")
                 if a.op == "attr" and a.args[1] == "size" and cn is not None and \
                         strip_wrappers(cn[0]) is strip_wrappers(a.args[0]):
                     inc_ok = True
-        ctx.ob("COUNT-1", f"{fi.qualname}: increment is weights.size - count_nonzero(weights)", inc_ok,
+            # equivalent counts of dead walkers: sum(w == 0), (w == 0).sum(), count_nonzero(w == 0)
+            arg_ = None
+            for fn_ in ("sum", "count_nonzero"):
+                a_ = m_arrcall(step_, fn_) if step_.op == "call" else None
+                if a_ is not None and len(a_) == 1:
+                    arg_ = strip_wrappers(a_[0])
+            mm_ = m_method(step_, "sum") if step_.op == "call" else None
+            if mm_ is not None and not mm_[1]:
+                arg_ = strip_wrappers(mm_[0])
+            if arg_ is not None and arg_.op == "cmp" and arg_.args[0] == "==":
+                l_, r_ = strip_wrappers(arg_.args[1]), strip_wrappers(arg_.args[2])
+                w_ = l_ if const_num(r_) == 0 else (r_ if const_num(l_) == 0 else None)
+                if w_ is not None and w_.op == "getitem" and w_.args[1].op == "const" and w_.args[1].args[0] == "weights":
+                    inc_ok = True
+        ctx.ob("COUNT-1", f"{fi.qualname}: increment is the number of zero weights (size - count_nonzero, or sum(w == 0))", inc_ok,
                "0 <= increment <= n_walkers" if inc_ok else f"increment {show(added, maxdepth=3)[:120]}", fi)
     if n < 4:
         raise AnalysisError("COUNT-1 matched fewer than 4 entry points")
